@@ -152,7 +152,7 @@ Qed.
 (** [has] survives writes that do not delete the slot *)
 Definition no_del_at (p : list seg) (k : term) (ws : list write) : bool :=
   forallb (fun w => match w with
-                    | WDel p' k' => negb (path_eqb p p' && term_eqb k k')
+                    | WDel p' k' => negb (term_eqb k k' && path_eqb p p')
                     | WPut _ _ _ => true
                     end) ws.
 
@@ -163,7 +163,7 @@ Proof.
 Qed.
 
 Lemma has_apply_write p k w d :
-  match w with WDel p' k' => path_eqb p p' && term_eqb k k' = false | _ => True end ->
+  match w with WDel p' k' => term_eqb k k' && path_eqb p p' = false | _ => True end ->
   has p k d = true -> has p k (apply_write w d) = true.
 Proof.
   intros Hw H. apply has_iff in H. destruct H as (r & Hin & Hp & Hk). apply has_iff.
@@ -175,7 +175,7 @@ Proof.
   - exists r. split; [|auto]. unfold del. apply filter_In. split; [exact Hin|].
     apply negb_true_iff. destruct (same_slot p' k' r) eqn:E; [|reflexivity].
     apply same_slot_iff in E. destruct E as [E1 E2]. exfalso.
-    assert (path_eqb p p' && term_eqb k k' = true); [|congruence].
+    assert (term_eqb k k' && path_eqb p p' = true); [|congruence].
     apply andb_true_iff. rewrite path_eqb_eq, term_eqb_eq. split; congruence.
 Qed.
 
@@ -432,4 +432,505 @@ Proof.
         { apply Hno. unfold w_convert. apply in_or_app. right. apply in_or_app. left.
           apply in_flat_map. exists r. split; [exact Hin|]. unfold conv_row. rewrite Ec, E. now left. }
         rewrite wtouch_self_put in Ht. discriminate.
+Qed.
+
+(* ---- every operation preserves the invariant -------------------------- *)
+
+Definition wPb (sp al w : bool) (wr : write) : bool :=
+  match wr with
+  | WPut p k v => good_row sp al w {| r_path := p; r_key := k; r_val := v |}
+  | WDel _ _ => true
+  end.
+
+Lemma wPb_Forall sp al w ws : forallb (wPb sp al w) ws = true -> Forall (wP (gP sp al w)) ws.
+Proof.
+  intros H. rewrite forallb_forall in H. apply Forall_forall. intros x Hx. specialize (H x Hx).
+  destruct x; simpl in *; [exact H|exact I].
+Qed.
+
+Ltac split_hyps :=
+  repeat match goal with H : _ && _ = true |- _ => apply andb_true_iff in H; destruct H end.
+Ltac split_goal := repeat (apply andb_true_iff; split).
+
+Lemma read_acct_good sp al w s a d i :
+  Forall (gP sp al w) d -> read_acct s a d = Some i ->
+  forall i', ai_kind i' = ai_kind i ->
+  gP sp al w {| r_path := p_scope s ++ [BAcct]; r_key := knum a; r_val := acct_val i' |}.
+Proof.
+  intros Hd H i' Hk. unfold read_acct in H.
+  destruct (get (p_scope s ++ [BAcct]) (knum a) d) as [v|] eqn:G; [|discriminate].
+  apply get_in in G. rewrite Forall_forall in Hd. apply Hd in G. clear Hd.
+  prune H; inversion H; subst; clear H; destruct i' as [k' nm' e' i0']; simpl in Hk; subst k';
+    unfold acct_val; simpl in *; unfold_good; simpl in *; destruct w; split_hyps; split_goal;
+    try assumption; try reflexivity; bsolve.
+Qed.
+
+Lemma forallb_flat_map {A B} (f : B -> bool) (g : A -> list B) l :
+  (forall x, In x l -> forallb f (g x) = true) -> forallb f (flat_map g l) = true.
+Proof.
+  induction l as [|x l IH]; simpl; intros H; [reflexivity|].
+  rewrite forallb_app, H by (now left). simpl. apply IH. intros y Hy. apply H. now right.
+Qed.
+
+Ltac cond H :=
+  repeat match type of H with
+         | (if ?c then None else _) = Some _ => destruct c eqn:?; [discriminate H|]
+         | (if ?c then _ else None) = Some _ => destruct c eqn:?; [|discriminate H]
+         end.
+
+Ltac kill_true H :=
+  repeat (rewrite ?orb_true_r, ?orb_true_l, ?andb_true_r, ?andb_true_l in H; simpl in H); try discriminate H.
+
+Ltac closed_rows sp al st :=
+  apply wPb_Forall; destruct (wo st), sp, al; simpl; try reflexivity.
+
+Lemma writes_good sp al st o ws :
+  Inv sp al st -> admissible al o = true ->
+  writes sp st o = Some ws ->
+  (o = OConvert /\ wo st = false /\ created st = true /\ ws = w_convert sp (dsk st))
+  \/ Forall (wP (gP sp al (wo st))) ws.
+Proof.
+  intros [Hrows Hwo Hfresh] Hadm H.
+  destruct o; simpl in H.
+  - (* OCreate *) cond H. inversion H; subst. right.
+    destruct (Hfresh eq_refl) as [-> _]. apply wPb_Forall. destruct sp, al; vm_compute; reflexivity.
+  - cond H. inversion H. right. constructor.
+  - cond H. inversion H. right. constructor.
+  - cond H. inversion H. right. constructor.
+  - (* ONewAccount *) cond H. inversion H; subst. right.
+    destruct (wo st) eqn:W; [exfalso; kill_true Heqb|].
+    apply wPb_Forall. destruct sp, al; simpl; reflexivity.
+  - (* ONewScope *) cond H. inversion H; subst. right.
+    destruct (wo st) eqn:W; [exfalso; kill_true Heqb|].
+    apply wPb_Forall. destruct sp, al; simpl; reflexivity.
+  - (* ODerive *) cond H. destruct (read_acct s acct (dsk st)) as [i|] eqn:R; [|discriminate]. cond H.
+    inversion H; subst. right. apply Forall_flat_map_intro. intros idx _. unfold w_chain.
+    apply Forall_app. split.
+    + apply wPb_Forall. destruct (wo st), sp, al; simpl; reflexivity.
+    + constructor; [|constructor]. simpl. eapply read_acct_good; eauto. destruct internal; reflexivity.
+  - (* OImportPriv *) cond H. inversion H; subst. right. closed_rows sp al st.
+  - cond H. inversion H; subst. right. closed_rows sp al st.
+  - (* OImportScript *) cond H. inversion H; subst. right.
+    unfold admissible in Hadm. simpl in Hadm.
+    apply wPb_Forall. destruct k as [|sec|sec]; try destruct sec;
+      destruct (wo st) eqn:W, (locked st) eqn:L, sp, al; simpl in *; try (exfalso; kill_true Heqb; fail);
+      try discriminate; reflexivity.
+  - (* OImportXpub *) cond H. inversion H; subst. right. apply wPb_Forall.
+    destruct (wo st), sp, al, with_schema; simpl; reflexivity.
+  - (* ORename *) cond H. destruct (read_acct s acct (dsk st)) as [i|] eqn:R; [|discriminate].
+    inversion H; subst. right. constructor; [exact I|]. constructor; [exact I|].
+    unfold w_account. constructor.
+    + simpl. eapply read_acct_good; eauto.
+    + apply wPb_Forall. destruct (wo st), sp, al; simpl; reflexivity.
+  - (* OChangePass *) cond H. destruct private; inversion H; subst; right.
+    + destruct (wo st) eqn:W; [exfalso; kill_true Heqb|].
+      apply wPb_Forall. destruct sp, al; simpl; reflexivity.
+    + closed_rows sp al st.
+  - (* OMarkUsed *) cond H. match type of H with (if ?c then _ else _) = _ => destruct c end; inversion H; subst; right.
+    + constructor.
+    + closed_rows sp al st.
+  - (* OSyncTo *) cond H. inversion H; subst. right. unfold w_synced.
+    apply wPb_Forall. destruct (max_reorg_depth <? h), (wo st), sp, al; simpl; reflexivity.
+  - cond H. inversion H; subst. right. constructor; [exact I|constructor].
+  - (* OConvert *) cond H. destruct (wo st) eqn:W; inversion H; subst.
+    + right. constructor.
+    + left. apply negb_false_iff in Heqb. auto.
+Qed.
+
+Lemma writes_created sp st o ws :
+  writes sp st o = Some ws -> (o = OCreate /\ created st = false) \/ created st = true.
+Proof.
+  intros H. destruct (created st) eqn:C; [now right|left].
+  destruct o; simpl in H; rewrite ?C in H; simpl in H; try discriminate. auto.
+Qed.
+
+Definition flag_slot_free (ws : list write) : bool := slot_free [BMain] (kstr "watchonly") ws.
+
+Lemma conv_row_flag_free sp r : flag_slot_free (conv_row sp r) = true.
+Proof.
+  unfold conv_row. destruct (is_ctpriv r) eqn:E.
+  - unfold is_ctpriv in E. destruct r as [p k v]; simpl in *.
+    destruct p as [|[] [|[] [|]]]; try discriminate. reflexivity.
+  - destruct (strip_val sp (r_path r) (r_val r)) as [v'|] eqn:S; [|reflexivity].
+    apply strip_val_shape in S. apply strip_shape_path in S. destruct S as (s & b & ->). reflexivity.
+Qed.
+
+Lemma writes_keep_flag sp st o ws :
+  writes sp st o = Some ws ->
+  o = OCreate \/ (o = OConvert /\ wo st = false) \/ flag_slot_free ws = true.
+Proof.
+  intros H. destruct o; simpl in H; auto; right.
+  - cond H; inversion H; subst; right; reflexivity.
+  - cond H; inversion H; subst; right; reflexivity.
+  - cond H; inversion H; subst; right; reflexivity.
+  - cond H; inversion H; subst; right; reflexivity.
+  - cond H; inversion H; subst; right; reflexivity.
+  - (* ODerive *) cond H. destruct (read_acct s acct (dsk st)) as [i|]; [|discriminate]. cond H.
+    inversion H; subst. right. apply slot_free_flat_map. intros idx _. reflexivity.
+  - cond H; inversion H; subst; right; reflexivity.
+  - cond H; inversion H; subst; right; reflexivity.
+  - (* OImportScript *) cond H. inversion H; subst. right. destruct k as [|[]|[]]; reflexivity.
+  - cond H; inversion H; subst; right; reflexivity.
+  - (* ORename *) cond H. destruct (read_acct s acct (dsk st)) as [i|]; [|discriminate].
+    inversion H; subst. right. reflexivity.
+  - cond H. destruct private; inversion H; subst; right; reflexivity.
+  - cond H. match type of H with (if ?c then _ else _) = _ => destruct c end; inversion H; subst; right; reflexivity.
+  - cond H. inversion H; subst. right. unfold w_synced. destruct (max_reorg_depth <? h); reflexivity.
+  - cond H; inversion H; subst; right; reflexivity.
+  - cond H. destruct (wo st); inversion H; subst; [right; reflexivity|left; auto].
+Qed.
+
+Lemma disk_wo_convert sp d : disk_wo (apply_writes (w_convert sp d) d) = true.
+Proof.
+  unfold w_convert. rewrite !apply_writes_app. unfold disk_wo.
+  change (apply_writes [WPut [BMain] (kstr "watchonly") [Clear (UFlag true)]] ?x)
+    with (put [BMain] (kstr "watchonly") [Clear (UFlag true)] x).
+  now rewrite get_put_same.
+Qed.
+
+Lemma disk_wo_create : disk_wo (apply_writes w_create []) = false.
+Proof. vm_compute. reflexivity. Qed.
+
+Local Arguments apply_writes : simpl never.
+Local Arguments w_convert : simpl never.
+Local Arguments disk_wo : simpl never.
+
+Lemma step_inv sp al st o :
+  Inv sp al st -> admissible al o = true -> Inv sp al (fst (step sp st o)).
+Proof.
+  intros HI Hadm. pose proof HI as [Hrows Hwo Hfresh].
+  unfold step. destruct (writes sp st o) as [ws|] eqn:W; simpl.
+  2:{ destruct o; try exact HI.
+      destruct (created st && negb (wo st)); [|exact HI]. constructor; simpl; assumption. }
+  pose proof (writes_created _ _ _ _ W) as Hc.
+  pose proof (writes_keep_flag _ _ _ _ W) as Hk.
+  pose proof (writes_good _ _ _ _ _ HI Hadm W) as Hg.
+  destruct Hg as [(-> & Hw0 & Hcr & ->)|Hg].
+  - (* conversion *)
+    constructor; simpl.
+    + apply convert_good. now rewrite Hw0 in Hrows.
+    + intros _. now rewrite disk_wo_convert.
+    + intros C. congruence.
+  - assert (Hrows' : Forall (gP sp al (wo st)) (apply_writes ws (dsk st)))
+      by (apply Forall_apply_writes; assumption).
+    destruct Hc as [[-> Hcf]|Hct].
+    + (* create *) destruct (Hfresh Hcf) as [Hw0 Hd0]. simpl in W. rewrite Hcf in W. inversion W; subst ws.
+      constructor; simpl; [exact Hrows'| |discriminate].
+      intros _. rewrite Hd0, disk_wo_create. exact Hw0.
+    + assert (Hflag : o <> OCreate -> ~ (o = OConvert /\ wo st = false) ->
+                      disk_wo (apply_writes ws (dsk st)) = wo st).
+      { intros H1 H2. destruct Hk as [Hk|[Hk|Hk]]; [contradiction|contradiction|].
+        unfold disk_wo. unfold flag_slot_free in Hk. rewrite get_apply_writes_free by exact Hk.
+        symmetry. now apply Hwo. }
+      destruct o; simpl in *;
+        try (constructor; simpl;
+             [exact Hrows'
+             |intros _; symmetry; apply Hflag; [discriminate|intros [? _]; discriminate]
+             |intros C; congruence]).
+      * (* OCreate impossible: created *) rewrite Hct in W. discriminate.
+      * (* OReopen *) rewrite Hct in W. inversion W; subst ws.
+        change (apply_writes [] (dsk st)) with (dsk st) in *.
+        constructor; simpl; [|reflexivity|intros C; congruence].
+        rewrite <- (Hwo Hct). exact Hrows.
+      * (* OConvert with wo already set *)
+        rewrite Hct in W. simpl in W. destruct (wo st) eqn:Ew.
+        { inversion W; subst ws. change (apply_writes [] (dsk st)) with (dsk st) in *.
+          constructor; simpl; [exact Hrows|intros _; now apply Hwo|intros C; congruence]. }
+        { inversion W; subst ws. constructor; simpl.
+          - apply convert_good. exact Hrows.
+          - intros _. now rewrite disk_wo_convert.
+          - intros C; congruence. }
+Qed.
+
+(* ---- histories ------------------------------------------------------- *)
+
+Lemma inv_init sp al : Inv sp al init.
+Proof. constructor; simpl; [constructor|discriminate|auto]. Qed.
+
+Definition run_from (sp : bool) (st : state) (h : list op) : state :=
+  fold_left (fun st o => fst (step sp st o)) h st.
+
+Lemma run_from_app sp st h1 h2 : run_from sp st (h1 ++ h2) = run_from sp (run_from sp st h1) h2.
+Proof. unfold run_from. apply fold_left_app. Qed.
+
+Lemma run_is_run_from sp h : run sp h = run_from sp init h.
+Proof. reflexivity. Qed.
+
+Lemma inv_run_from sp al h : forall st,
+  Inv sp al st -> forallb (admissible al) h = true -> Inv sp al (run_from sp st h).
+Proof.
+  induction h as [|o h IH]; simpl; intros st HI Ha; [exact HI|].
+  apply andb_true_iff in Ha. destruct Ha as [Ho Hh]. apply IH; [|exact Hh]. now apply step_inv.
+Qed.
+
+Lemma inv_run sp al h : forallb (admissible al) h = true -> Inv sp al (run sp h).
+Proof. intros Ha. rewrite run_is_run_from. apply inv_run_from; [apply inv_init|exact Ha]. Qed.
+
+Lemma admissible_true_all h : forallb (admissible true) h = true.
+Proof. induction h; simpl; auto. Qed.
+
+Lemma inv_boundaries sp al h : forall st,
+  Inv sp al st -> forallb (admissible al) h = true -> Forall (Inv sp al) (boundaries sp st h).
+Proof.
+  induction h as [|o h IH]; simpl; intros st HI Ha; [constructor|].
+  apply andb_true_iff in Ha. destruct Ha as [Ho Hh].
+  assert (HI' : Inv sp al (fst (step sp st o))) by now apply step_inv.
+  constructor; [exact HI'|apply IH; assumption].
+Qed.
+
+(** the commit boundaries are exactly the states after each non-empty prefix *)
+Lemma boundaries_prefix sp h : forall st st',
+  In st' (boundaries sp st h) -> exists n, st' = run_from sp st (firstn (S n) h).
+Proof.
+  induction h as [|o h IH]; simpl; intros st st' H; [destruct H|].
+  destruct H as [<-|H].
+  - exists 0%nat. reflexivity.
+  - apply IH in H. destruct H as (n & ->). exists (S n). reflexivity.
+Qed.
+
+(* ---- (a), (b) ---------------------------------------------------------- *)
+
+Lemma good_row_ok sp al w r : gP sp al w r ->
+  ok_row false r = true /\ ok_row true r = true /\ avoids_never r = true.
+Proof. unfold gP, good_row. intros H. bprop. tauto. Qed.
+
+Lemma every_row_ok sp h r :
+  In r (dsk (run sp h)) -> ok_row false r = true /\ ok_row true r = true /\ avoids_never r = true.
+Proof.
+  intros Hin. pose proof (inv_run sp true h (admissible_true_all h)) as [Hrows _ _].
+  rewrite Forall_forall in Hrows. eapply good_row_ok. apply Hrows. exact Hin.
+Qed.
+
+Lemma every_boundary_ok sp h st r :
+  In st (boundaries sp init h) -> In r (dsk st) ->
+  ok_row false r = true /\ ok_row true r = true /\ avoids_never r = true.
+Proof.
+  intros Hst Hin.
+  pose proof (inv_boundaries sp true h init (inv_init sp true) (admissible_true_all h)) as HF.
+  rewrite Forall_forall in HF. destruct (HF st Hst) as [Hrows _ _].
+  rewrite Forall_forall in Hrows. eapply good_row_ok. apply Hrows. exact Hin.
+Qed.
+
+(** unfolding [ok_row]: the rule of the property for every occurrence of an
+    atom in a stored key or value *)
+Lemma ok_row_occurrence strict r t a c :
+  ok_row strict r = true -> In t (fields r) -> occurs a c t -> allowed strict a c.
+Proof.
+  unfold ok_row. intros H Ht Hoc. rewrite forallb_forall in H. eapply ok_sound; eauto.
+Qed.
+
+Lemma avoids_never_occurrence r t a c :
+  avoids_never r = true -> In t (fields r) -> occurs a c t -> never_atom a = false.
+Proof.
+  unfold avoids_never. intros H Ht Hoc. rewrite forallb_forall in H. specialize (H t Ht).
+  apply negb_true_iff in H. eapply mentions_sound; eauto.
+Qed.
+
+Lemma clean_row_occurrence r t a c :
+  clean_row r = true -> In t (fields r) -> occurs a c t -> private_atom a = false.
+Proof.
+  unfold clean_row. intros H Ht Hoc. rewrite forallb_forall in H. specialize (H t Ht).
+  apply negb_true_iff in H. eapply has_private_sound; eauto.
+Qed.
+
+(* ---- lock / unlock have no disk effect --------------------------------- *)
+
+Lemma lock_unlock_no_disk_effect sp st o :
+  (o = OLock \/ exists b, o = OUnlock b) -> dsk (fst (step sp st o)) = dsk st.
+Proof.
+  intros [->|[b ->]]; unfold step; simpl.
+  - destruct (negb (created st) || wo st || locked st); reflexivity.
+  - destruct (negb (created st) || wo st || negb b || (locked st && wcached st)); simpl; [|reflexivity].
+    destruct (created st && negb (wo st)); reflexivity.
+Qed.
+
+Lemma lock_unlock_writes_nothing sp st o ws :
+  (o = OLock \/ exists b, o = OUnlock b) -> writes sp st o = Some ws -> ws = [].
+Proof.
+  intros [->|[b ->]]; simpl; intros H.
+  - destruct (negb (created st) || wo st || locked st); [discriminate|now inversion H].
+  - destruct (negb (created st) || wo st || negb b || (locked st && wcached st)); [discriminate|now inversion H].
+Qed.
+
+(* ---- (c) watching-only ------------------------------------------------- *)
+
+Lemma wo_step sp al st o : Inv sp al st -> wo st = true -> wo (fst (step sp st o)) = true.
+Proof.
+  intros [_ Hwo Hfresh] Hw. unfold step.
+  destruct (writes sp st o) as [ws|] eqn:W; simpl.
+  - destruct o; simpl; try exact Hw; try reflexivity.
+    (* OReopen *) simpl in W. destruct (created st) eqn:C; [|discriminate]. inversion W; subst.
+    change (apply_writes [] (dsk st)) with (dsk st). rewrite <- Hwo; auto.
+  - destruct o; try exact Hw.
+    destruct (created st && negb (wo st)); exact Hw.
+Qed.
+
+Lemma wo_run_from sp al h : forall st,
+  Inv sp al st -> forallb (admissible al) h = true -> wo st = true -> wo (run_from sp st h) = true.
+Proof.
+  induction h as [|o h IH]; simpl; intros st HI Ha Hw; [exact Hw|].
+  apply andb_true_iff in Ha. destruct Ha as [Ho Hh].
+  apply IH; [now apply step_inv|exact Hh|eapply wo_step; eauto].
+Qed.
+
+Lemma convert_sets_wo sp st : created st = true -> wo (fst (step sp st OConvert)) = true.
+Proof.
+  intros C. unfold step. simpl. rewrite C. simpl. destruct (wo st); reflexivity.
+Qed.
+
+Lemma created_step sp st o : created st = true -> created (fst (step sp st o)) = true.
+Proof.
+  intros C. unfold step. destruct (writes sp st o); simpl.
+  - destruct o; auto.
+  - destruct o; auto. destruct (created st && negb (wo st)); auto.
+Qed.
+
+(** state after [h1], a successful conversion, then any continuation *)
+Lemma after_convert sp al h1 h2 :
+  forallb (admissible al) (h1 ++ OConvert :: h2) = true ->
+  created (run sp h1) = true ->
+  let st := run sp (h1 ++ OConvert :: h2) in
+  Inv sp al st /\ wo st = true.
+Proof.
+  intros Ha C st. split; [now apply inv_run|].
+  subst st. rewrite run_is_run_from, run_from_app. simpl.
+  rewrite forallb_app in Ha. apply andb_true_iff in Ha. destruct Ha as [Ha1 Ha2].
+  simpl in Ha2. apply andb_true_iff in Ha2. destruct Ha2 as [_ Ha2].
+  assert (HI1 : Inv sp al (run_from sp init h1)) by (apply inv_run_from; [apply inv_init|exact Ha1]).
+  eapply wo_run_from; [|exact Ha2|].
+  - apply step_inv; [exact HI1|]. unfold admissible. simpl. now rewrite orb_true_r.
+  - apply convert_sets_wo. exact C.
+Qed.
+
+Definition no_secret_taproot (h : list op) : bool := forallb (fun o => negb (secret_taproot_import o)) h.
+
+Lemma admissible_false_all h : no_secret_taproot h = true -> forallb (admissible false) h = true.
+Proof. unfold no_secret_taproot, admissible. simpl. auto. Qed.
+
+(** general form: what may remain after conversion *)
+Lemma watching_only_rows sp h1 h2 r :
+  created (run sp h1) = true ->
+  In r (dsk (run sp (h1 ++ OConvert :: h2))) ->
+  clean_row r = true \/ (sp = false /\ tr_secret_row r = true).
+Proof.
+  intros C Hin.
+  destruct (after_convert sp true h1 h2 (admissible_true_all _) C) as [[Hrows _ _] Hw].
+  rewrite Hw in Hrows. rewrite Forall_forall in Hrows. specialize (Hrows r Hin).
+  unfold gP, good_row, resid in Hrows. bprop. destruct sp; simpl in *; intuition.
+Qed.
+
+Lemma watching_only_clean_if_stripped h1 h2 r :
+  created (run true h1) = true ->
+  In r (dsk (run true (h1 ++ OConvert :: h2))) -> clean_row r = true.
+Proof.
+  intros C Hin. destruct (watching_only_rows true h1 h2 r C Hin) as [H|[H _]]; [exact H|discriminate].
+Qed.
+
+Lemma watching_only_clean_outside_K sp h1 h2 r :
+  no_secret_taproot (h1 ++ OConvert :: h2) = true ->
+  created (run sp h1) = true ->
+  In r (dsk (run sp (h1 ++ OConvert :: h2))) -> clean_row r = true.
+Proof.
+  intros K C Hin.
+  destruct (after_convert sp false h1 h2 (admissible_false_all _ K) C) as [[Hrows _ _] Hw].
+  rewrite Hw in Hrows. rewrite Forall_forall in Hrows. specialize (Hrows r Hin).
+  unfold gP, good_row, resid in Hrows. bprop. simpl in *.
+  destruct Hrows as [[_ [Hf|Ht]] [Hc|[_ Ht']]]; try discriminate; try exact Hc. congruence.
+Qed.
+
+Lemma watching_only_api sp h1 h2 c :
+  created (run sp h1) = true ->
+  let st := run sp (h1 ++ OConvert :: h2) in
+  refuses (api st c) = true /\ api st CUnlock = ErrWatchingOnly.
+Proof.
+  intros C st. destruct (after_convert sp true h1 h2 (admissible_true_all _) C) as [_ Hw].
+  fold st in Hw. unfold api. rewrite Hw. rewrite orb_true_r. destruct c; auto.
+Qed.
+
+(** the flag read back by a later Open is set: a reopened manager is
+    watching-only *)
+Lemma watching_only_flag_on_disk sp h1 h2 :
+  created (run sp h1) = true ->
+  disk_wo (dsk (run sp (h1 ++ OConvert :: h2))) = true.
+Proof.
+  intros C. destruct (after_convert sp true h1 h2 (admissible_true_all _) C) as [[_ Hwo _] Hw].
+  rewrite <- Hwo; [exact Hw|].
+  rewrite run_is_run_from, run_from_app. simpl.
+  assert (created (fst (step sp (run_from sp init h1) OConvert)) = true) by (apply created_step; exact C).
+  clear - H. revert H. generalize (fst (step sp (run_from sp init h1) OConvert)).
+  induction h2 as [|o h IH]; simpl; intros s Hs; [exact Hs|]. apply IH. now apply created_step.
+Qed.
+
+(* ---- rows keyed by sha256(address id) are never deleted ----------------- *)
+
+Lemma conv_row_keeps_hashed sp r p t : no_del_at p (Hash t) (conv_row sp r) = true.
+Proof.
+  unfold conv_row. destruct (is_ctpriv r) eqn:E.
+  - unfold is_ctpriv in E. destruct r as [p' k v]; simpl in *.
+    destruct p' as [|[] [|[] [|]]]; try discriminate. destruct k as [| | |[]| |]; try discriminate.
+    reflexivity.
+  - destruct (strip_val sp (r_path r) (r_val r)); reflexivity.
+Qed.
+
+Lemma writes_keep_hashed sp st o ws p t :
+  writes sp st o = Some ws -> no_del_at p (Hash t) ws = true.
+Proof.
+  intros H. destruct o; simpl in H.
+  - cond H; inversion H; subst. reflexivity.
+  - cond H; inversion H; subst; reflexivity.
+  - cond H; inversion H; subst; reflexivity.
+  - cond H; inversion H; subst; reflexivity.
+  - cond H; inversion H; subst; reflexivity.
+  - cond H; inversion H; subst; reflexivity.
+  - cond H. destruct (read_acct s acct (dsk st)) as [i|]; [|discriminate]. cond H.
+    inversion H; subst. apply no_del_at_flat_map. intros idx _. reflexivity.
+  - cond H; inversion H; subst; reflexivity.
+  - cond H; inversion H; subst; reflexivity.
+  - cond H. inversion H; subst. destruct k as [|[]|[]]; reflexivity.
+  - cond H; inversion H; subst; reflexivity.
+  - cond H. destruct (read_acct s acct (dsk st)) as [i|]; [|discriminate].
+    inversion H; subst. reflexivity.
+  - cond H. destruct private; inversion H; subst; reflexivity.
+  - cond H. match type of H with (if ?c then _ else _) = _ => destruct c end; inversion H; subst; reflexivity.
+  - cond H. inversion H; subst. unfold w_synced. destruct (max_reorg_depth <? h); reflexivity.
+  - cond H; inversion H; subst; reflexivity.
+  - cond H. destruct (wo st); inversion H; subst; [reflexivity|].
+    unfold w_convert. rewrite !no_del_at_app. apply andb_true_iff. split; [reflexivity|].
+    apply andb_true_iff. split; [|reflexivity].
+    apply no_del_at_flat_map. intros r _. apply conv_row_keeps_hashed.
+Qed.
+
+Lemma hashed_row_step sp st o p t :
+  has p (Hash t) (dsk st) = true -> has p (Hash t) (dsk (fst (step sp st o))) = true.
+Proof.
+  intros H. unfold step. destruct (writes sp st o) as [ws|] eqn:W; simpl.
+  - apply has_apply_writes; [eapply writes_keep_hashed; eauto|exact H].
+  - destruct o; try exact H.
+    destruct (created st && negb (wo st)); exact H.
+Qed.
+
+Lemma hashed_row_run_from sp h p t : forall st,
+  has p (Hash t) (dsk st) = true -> has p (Hash t) (dsk (run_from sp st h)) = true.
+Proof.
+  induction h as [|o h IH]; simpl; intros st H; [exact H|]. apply IH. now apply hashed_row_step.
+Qed.
+
+(** every address row, address/account index entry and used flag present
+    before the conversion is present after it and after any continuation *)
+Lemma addresses_survive sp h1 h2 p t :
+  has p (Hash t) (dsk (run sp h1)) = true ->
+  has p (Hash t) (dsk (run sp (h1 ++ h2))) = true.
+Proof.
+  intros H. rewrite run_is_run_from, run_from_app. apply hashed_row_run_from. exact H.
+Qed.
+
+(** conversion keeps every field of a row except the private one it blanks *)
+Lemma strip_keeps_public_fields sp p v v' :
+  strip_shape sp p v v' ->
+  length v' = length v /\
+  forall n t, nth_error v' n = Some t -> t = Const 0 \/ nth_error v n = Some t.
+Proof.
+  intros Hs. inversion Hs; subst; (split; [reflexivity|]); intros n t Hn;
+    do 9 (destruct n as [|n]; simpl in *; [inversion Hn; subst; auto|]); try discriminate;
+    destruct n; discriminate.
 Qed.
